@@ -144,14 +144,28 @@ def flat_obligation(ctx):
     pairs = [(a, b) for a in worlds for b in worlds]
     class AccM(SymVal):
         def __init__(s, rel): s.rel = rel
-        def sym_getitem(s, it, w): return {b for a, b in s.rel if a == w}
-        def sym_iter(s, it): return sorted({a for a, b in s.rel} | {0})
+        # the successors of a world are a set: its iteration order is unspecified, so the model hands them out in DESCENDING order
+        # (small ints happen to iterate in ascending order in CPython, which would hide a missing sort)
+        def sym_getitem(s, it, w): return sorted({b for a, b in s.rel if a == w}, reverse=True)
+        def sym_iter(s, it): return sorted({a for a, b in s.rel} | {0}, reverse=True)
     for k in range(0, 5):
         for rel in itertools.combinations(pairs, k):
             prs = explore(lambda path: (lambda it: it.iterate(it.call_source(fi, fn, BaseModel.Access, [AccM(rel)], dict(w1s=worlds, sort=True))))(Interp(path, world)))
             got = prs[0].value if prs[0].kind == 'return' else None
             if got != sorted(rel): bad.append(dict(rel=list(rel), got=got))
     ctx.add(enum_ob('C20.Access.flat.sorted-pairs', not bad, where=where, clause='flat(w1s=sorted worlds, sort=True) lists exactly the access pairs, sorted (all relations of <= 4 pairs over 3 worlds, interpreted from source)', cex=dict(bad=bad[:3])))
+
+def replay_flat(r):
+    "real models whose successor sets iterate out of numeric order (worlds that collide modulo the set's table size)"
+    from pytableaux.logics import registry
+    out = []
+    for pairs in ([(0, 1), (0, 9)], [(0, 9), (0, 1)], [(0, 8), (0, 16), (0, 1)], [(7, 8), (7, 7), (0, 7)]):
+        m = registry('K').Model()
+        for p in pairs: m.R.add(p)
+        m.finish()
+        got = [tuple(p) for p in m.get_data()['Access']['values']]
+        if got != sorted(got): out.append(f'pairs entered as {pairs}: exported {got}')
+    return dict(reproduced=bool(out), detail='; '.join(out[:3]) or 'exported access pairs are sorted')
 
 def _export_chunk(job):
     lname, seed, count = job
@@ -350,6 +364,7 @@ def run(ctx):
     ctx.replayers['C20.get_data.'] = replay_get_data
     ctx.replayers['C20.predicate-data'] = replay_predicate_data
     ctx.replayers['C20.having'] = replay_predicate_data
+    ctx.replayers['C20.Access.flat'] = replay_flat
     ctx.replayers['C20.'] = lambda r: dict(reproduced=None, detail='see counterexample / meta')
 
 def replay(payload):
